@@ -76,11 +76,14 @@ pub struct Case {
     pub length: String,
     /// dims of the UINT8 initializer
     pub dims: Vec<i64>,
+    /// Some(location): the model has an earlier external tensor W0 (offset 0, length 4) at this
+    /// (valid) location, loaded before W - the loaders keep per-file state between tensors
+    pub first: Option<String>,
 }
 
 impl Case {
     fn to_json(&self) -> Json {
-        json!({"location": self.location, "location_bytes_hex": drv::hex(self.location.as_bytes()), "offset": self.offset, "length": self.length, "dims": self.dims})
+        json!({"location": self.location, "location_bytes_hex": drv::hex(self.location.as_bytes()), "offset": self.offset, "length": self.length, "dims": self.dims, "first": self.first})
     }
     fn from_json(j: &Json) -> Case {
         Case {
@@ -88,6 +91,7 @@ impl Case {
             offset: j["offset"].as_str().unwrap_or("0").to_string(),
             length: j["length"].as_str().unwrap_or("0").to_string(),
             dims: j["dims"].as_array().map(|a| a.iter().map(|x| x.as_i64().unwrap_or(0)).collect()).unwrap_or_default(),
+            first: j["first"].as_str().map(|s| s.to_string()),
         }
     }
 }
@@ -125,8 +129,9 @@ fn numeric_extremes() -> Vec<u64> {
     vec![0, 1, 8, 16, L - 1, L, L + 1, (1 << 31) - 1, 1 << 31, 1 << 32, 1 << 40, 1 << 62, (1 << 63) - 1, 1 << 63, u64::MAX - 1, u64::MAX]
 }
 
-pub const N_SETS: usize = 3;
-const SET_NAMES: [&str; 3] = [
+pub const N_SETS: usize = 4;
+const SET_NAMES: [&str; 4] = [
+    "location strings (<=2 components x separator x prefix x trailing separator) for the SECOND external tensor of a model whose first tensor is loaded from w.data (per-file loader state)",
     "location strings (<=3 components x separator x prefix x trailing separator), offset 8, length 16",
     "offset x length extremes for location w.data (two dims variants)",
     "non-canonical offset / length strings",
@@ -139,6 +144,20 @@ pub fn build_set(i: usize, thorough: bool) -> Vec<Case> {
             let mut locs = Vec::new();
             location_strings(&COMPONENTS_FULL, 1, &mut locs);
             location_strings(&COMPONENTS_FULL, 2, &mut locs);
+            for extra in ["w.data//", "w.data/./", "w.data/./.", "./w.data", ".//w.data", "w.data/../w.data", "sub/../w.data"] {
+                locs.push(extra.to_string());
+            }
+            let mut seen = std::collections::HashSet::new();
+            for l in locs {
+                if seen.insert(l.clone()) {
+                    out.push(Case { location: l, offset: "8".into(), length: "16".into(), dims: vec![16], first: Some("w.data".into()) });
+                }
+            }
+        }
+        1 => {
+            let mut locs = Vec::new();
+            location_strings(&COMPONENTS_FULL, 1, &mut locs);
+            location_strings(&COMPONENTS_FULL, 2, &mut locs);
             if thorough {
                 location_strings(&COMPONENTS_FULL, 3, &mut locs);
             } else {
@@ -147,17 +166,17 @@ pub fn build_set(i: usize, thorough: bool) -> Vec<Case> {
             let mut seen = std::collections::HashSet::new();
             for l in locs {
                 if seen.insert(l.clone()) {
-                    out.push(Case { location: l, offset: "8".into(), length: "16".into(), dims: vec![16] });
+                    out.push(Case { location: l, offset: "8".into(), length: "16".into(), dims: vec![16], first: None });
                 }
             }
         }
-        1 => {
+        2 => {
             for loc in ["w.data", "empty.data"] {
                 for o in numeric_extremes() {
                     for l in numeric_extremes() {
                         let exact: i64 = if l <= 1 << 62 { l as i64 } else { 4 };
                         for dims in [vec![exact], vec![4], vec![2, 2]] {
-                            out.push(Case { location: loc.into(), offset: o.to_string(), length: l.to_string(), dims });
+                            out.push(Case { location: loc.into(), offset: o.to_string(), length: l.to_string(), dims, first: None });
                         }
                     }
                 }
@@ -167,9 +186,9 @@ pub fn build_set(i: usize, thorough: bool) -> Vec<Case> {
         _ => {
             let odd = ["", " 8", "8 ", "+8", "-8", "-0", "08", "0x8", "8.0", "1e1", "８", "18446744073709551616", "99999999999999999999999999", "8\0"];
             for s in odd {
-                out.push(Case { location: "w.data".into(), offset: s.into(), length: "16".into(), dims: vec![16] });
-                out.push(Case { location: "w.data".into(), offset: "8".into(), length: s.into(), dims: vec![16] });
-                out.push(Case { location: "w.data".into(), offset: "8".into(), length: s.into(), dims: vec![8] });
+                out.push(Case { location: "w.data".into(), offset: s.into(), length: "16".into(), dims: vec![16], first: None });
+                out.push(Case { location: "w.data".into(), offset: "8".into(), length: s.into(), dims: vec![16], first: None });
+                out.push(Case { location: "w.data".into(), offset: "8".into(), length: s.into(), dims: vec![8], first: None });
             }
         }
     }
@@ -193,8 +212,24 @@ fn model_bytes(c: &Case) -> Vec<u8> {
     t.msg(13, &e3);
     t.varint(14, 1);
     let mut g = vp_onnx::pb::Msg::new();
+    if c.first.is_some() {
+        g.msg(1, &Node::new("Identity", &["W0"], &["O0"]).encode());
+    }
     g.msg(1, &Node::new("Identity", &["W"], &["O"]).encode());
     g.string(2, "ext");
+    if let Some(first) = &c.first {
+        // an earlier, valid external tensor (bytes 0..4 of `first`)
+        let mut t0 = Tensor { name: "W0".into(), dims: vec![4], data_type: dtype::UINT8, data: TensorData::None }.encode();
+        let f1 = kv("location", first);
+        let f2 = kv("offset", "0");
+        let f3 = kv("length", "4");
+        t0.msg(13, &f1);
+        t0.msg(13, &f2);
+        t0.msg(13, &f3);
+        t0.varint(14, 1);
+        g.msg(5, &t0);
+        g.msg(12, &ValueInfo::typed_no_shape("O0", dtype::UINT8).encode());
+    }
     g.msg(5, &t);
     g.msg(12, &ValueInfo::typed_no_shape("O", dtype::UINT8).encode());
     seeds::model_msg(&g, seeds::OPSET).buf
@@ -404,7 +439,7 @@ fn eval(sb: &Sandbox, c: &Case, idx: u64, prog: &drv::Progress, acc: &mut drv::A
                             acc.obs("MemLoader: loads a registered buffer whose name is not a file in the sandbox (no directory involved)");
                         } else {
                             acc.vio(
-                                format!("external data accepted although it must be refused: {why}"),
+                                format!("external data accepted although it must be refused: {why}{}", if c.first.is_some() { " [second external tensor of the model; the first one was loaded from w.data]" } else { "" }),
                                 idx,
                                 format!("[{lname}] returned a model (constant bytes {:?}) for location {:?} offset {:?} length {:?} dims {:?}", &got[..got.len().min(16)], c.location, c.offset, c.length, c.dims),
                             );
